@@ -22,6 +22,7 @@ def run(ctx):
     a_b_wait(ctx, temps)
     c_catch(ctx, names, temps)
     d_normaliser(ctx)
+    e_all_matching_heads(ctx)
 
 
 def _segment_after(elems, g, st, start, stop_cls=("MergeHeads", "Abort")):
@@ -94,6 +95,15 @@ def a_b_wait(ctx, temps):
                     seg = _segment_after(elems, g, st, g.labels[l], stop_cls=("Goto",)) if l in g.labels else []
                     if not seg or seg[-1].cls != "Goto" or seg[-1].fields.get("label") != end_label:
                         ok_goto = False
+                if fn == "_expand_match_element":
+                    # members of a group must be awaited in PARALLEL: one forked head per member, i.e. exactly one match statement per branch
+                    # (an and-group inside an or-branch is one nested match on the whole and-group, expanded by the and-template)
+                    for l in labels:
+                        seg = _segment_after(elems, g, st, g.labels[l], stop_cls=("Goto",)) if l in g.labels else []
+                        nm = len([e for e in seg if e.cls == "SpecOp" and e.fields.get("op") in ("match", "{element.op}")])
+                        rec(fn, "%s fork: one match per forked head" % kind, nm == 1,
+                            "a forked branch of the match template contains %d match statements in sequence: the members of an and-group are then awaited one after the other, "
+                            "so the statement only completes for ONE arrival order (witness %s)" % (nm, C12._sz(sizes)), f.line)
                 rec(fn, "%s fork: every branch ends in Goto(end label)" % kind, ok_goto and end_label is not None,
                     "a forked branch of %s does not end with a Goto to the common end label (witness %s)" % (fn, C12._sz(sizes)), f.line)
                 succ_seg = _segment_after(elems, g, st, g.labels.get(end_label, len(elems))) if end_label else []
@@ -195,5 +205,76 @@ def d_normaliser(ctx):
         ok = bool(inits) and dist
     ctx.check("C07.d.normaliser", EXP, fn.name, "and case", ok,
               "`and`: starting from one empty and-group, every accumulated group is combined with every group of the next operand by concatenating their members (distribution)", line=fn.lineno)
+    fl = find_function(mod, "flatten_or_group")
+    if fl is None:
+        raise AnalysisError("flatten_or_group not found", anchor=EXP + "::flatten_or_group")
+    skips = [x for x in ast.walk(fl) if isinstance(x, (ast.Continue, ast.Break))]
+    member_tests = [i for i in ast.walk(fl) if isinstance(i, ast.If) and any(isinstance(c, ast.Compare) and any(isinstance(o, (ast.In, ast.NotIn)) for o in c.ops) for c in ast.walk(i.test))]
+    adds = [c for c in ast.walk(fl) if isinstance(c, ast.Call) and isinstance(c.func, ast.Attribute) and c.func.attr in ("append", "extend")]
+    ok = not skips and not member_tests and len(adds) >= 2
+    ctx.check("C07.d.normaliser", EXP, "flatten_or_group", "pure flattening", ok,
+              "flattening keeps every alternative: nested or-levels are spliced in, everything else is appended, nothing is skipped" if ok else
+              "flatten_or_group drops alternatives (%s): two or-branches that look alike but refer to different objects (`$a.Finished() or $b.Finished()`) collapse into one, and the second reference never completes the statement"
+              % ("`continue`/`break` in the loop" if skips else "membership test on already seen groups"), line=fl.lineno)
     single = any(isinstance(n, ast.If) and "isinstance(group, Spec)" in src(n.test) for n in ast.walk(fn))
     ctx.check("C07.d.normaliser", EXP, fn.name, "single spec", single, "a single spec is wrapped into a one-member and-group", line=fn.lineno)
+
+
+SM = "nemoguardrails/colang/v2_x/runtime/statemachine.py"
+
+
+def e_all_matching_heads(ctx):
+    """A group is realised by several forked heads of ONE flow instance waiting for (possibly the same) event.  The formula semantics needs every head
+    whose pattern matches the event to advance: between collecting the matching heads and handing them to _handle_event_matching the list may be
+    re-ordered, never filtered, and the handler visits every head."""
+    from ..pycfg import walk_no_nested
+    t = ctx.tree.ast(SM)
+    rtc = find_function(t, "run_to_completion")
+    hem = find_function(t, "_handle_event_matching")
+    if rtc is None or hem is None:
+        raise AnalysisError("run_to_completion / _handle_event_matching not found", anchor=SM + "::run_to_completion")
+    calls = [c for c in ast.walk(rtc) if isinstance(c, ast.Call) and src(c.func) == "_handle_event_matching"]
+    ctx.floor("C07.e.all-matching-heads", SM, "hand-over of the matching heads", len(calls), 1)
+    for c in calls:
+        arg = src(c.args[2]) if len(c.args) > 2 else None
+        ctx.check("C07.e.all-matching-heads", SM, "run_to_completion", first_line(c, 70), arg == "heads_matching",
+                  "the handler receives the collected list `heads_matching`" if arg == "heads_matching" else "the handler receives `%s`, not the collected list of matching heads" % arg, line=c.lineno)
+    writes = []
+    for n in ast.walk(rtc):
+        if isinstance(n, ast.Assign) and any(src(x) == "heads_matching" for x in n.targets):
+            writes.append(n)
+        if isinstance(n, ast.AnnAssign) and src(n.target) == "heads_matching":
+            writes.append(n)
+        if isinstance(n, ast.Call) and isinstance(n.func, ast.Attribute) and src(n.func.value) == "heads_matching" and n.func.attr in ("remove", "pop", "clear", "insert", "extend"):
+            writes.append(n)
+        if isinstance(n, ast.Delete) and any("heads_matching" in src(x) for x in n.targets):
+            writes.append(n)
+    for w in writes:
+        v = getattr(w, "value", None)
+        ok = False
+        why = "filters or replaces the list"
+        if isinstance(w, (ast.Assign, ast.AnnAssign)) and isinstance(v, ast.List) and not v.elts:
+            ok, why = True, "initialisation"
+        elif isinstance(w, (ast.Assign, ast.AnnAssign)) and isinstance(v, ast.Call) and src(v.func) == "sorted" and v.args and src(v.args[0]) == "heads_matching":
+            ok, why = True, "re-ordering by specificity"
+        ctx.check("C07.e.all-matching-heads", SM, "run_to_completion", first_line(w, 70), ok,
+                  "write to heads_matching: %s" % why if ok else
+                  "`%s` %s: a head of a forked group whose pattern also matches the event does not advance (e.g. `match A and (B or C)`: both heads waiting for A must take it)" % (first_line(w, 60), why),
+                  line=w.lineno)
+    appends = [n for n in ast.walk(rtc) if isinstance(n, ast.Call) and isinstance(n.func, ast.Attribute) and src(n.func.value) == "heads_matching" and n.func.attr == "append"]
+    first_call = min([c.lineno for c in calls]) if calls else 0
+    for a in appends:
+        if a.lineno > first_call:
+            continue   # after the hand-over the list is re-used to advance heads that caught a pattern failure
+        guards = []
+        p_ = getattr(a, "_parent", None)
+        while p_ is not None and p_ is not rtc:
+            if isinstance(p_, ast.If):
+                guards.append(src(p_.test))
+            p_ = getattr(p_, "_parent", None)
+        ok = any(re.sub(r"\s", "", g_) in ("matching_score>0.0", "matching_score>0") for g_ in guards)
+        ctx.check("C07.e.all-matching-heads", SM, "run_to_completion", first_line(a, 60), ok, "a head is collected exactly when its matching score is positive", line=a.lineno)
+    loops = [l for l in ast.walk(hem) if isinstance(l, ast.For) and src(l.iter) == hem.args.args[2].arg]
+    exits = [x for l in loops for x in ast.walk(l) if isinstance(x, (ast.Break, ast.Return))]
+    ctx.check("C07.e.all-matching-heads", SM, "_handle_event_matching", "visits every matching head", bool(loops) and not exits,
+              "the handler iterates over all matching heads without leaving the loop early", line=hem.lineno)
